@@ -702,6 +702,7 @@ def _minor_isolation_case(res, case):
                 perms = list(itertools.permutations(sub))
                 rng.shuffle(perms)
                 arrangements += perms[:3]
+        first_result = None
         for arr in arrangements[:40]:
             current.clear()
             try:
@@ -712,6 +713,24 @@ def _minor_isolation_case(res, case):
                 continue
             for k_, v in current.items():
                 seen[k_][arr] = v
+            if first_result is None:
+                first_result = (arr, dict(current))
+        # the very first call again, on the evidence object all the other calls have used in between, and on a
+        # sample loaded afresh from the same file: a stage call must not leave anything behind on the evidence
+        if first_result is not None:
+            arr0, want0 = first_result
+            for label, cov_ in (("same evidence object, after the other calls", s.coverage),
+                                ("sample loaded afresh", Sample(g, prof, bam).coverage)):
+                current.clear()
+                try:
+                    with util.time_limit(60):
+                        estimate_minor(g, cov_, [majors[i] for i in arr0], "any")
+                except (util.Slow, RecursionError):
+                    res.count("skipped_slow")
+                    continue
+                res.check("minor_repeat_same", dict(current) == want0,
+                          "repeating a refinement call gives a different result: " + label,
+                          arrangement=list(arr0), first=str(want0)[:300], again=str(dict(current))[:300], **desc)
     finally:
         aldy.minor.solve_minor_model = orig
     def documented_behaviour(arr, target):
@@ -743,7 +762,8 @@ def _minor_isolation_case(res, case):
                 cond = cond and cov.basic_filter(mut, cn=last_cn.position_cn(mut.pos) + 0.5)
             return cond
 
-        cov = s.coverage.filtered(Coverage.quality_filter).filtered(flt)
+        # on evidence loaded afresh: nothing an earlier call may have left on the shared sample takes part
+        cov = Sample(g, prof, bam).coverage.filtered(Coverage.quality_filter).filtered(flt)
         out = orig(g, cov, target, alleles, muts, "any", 1)
         return sorted(
             (tuple(sorted((a.major, a.minor, tuple(sorted(map(str, a.added))), tuple(sorted(map(str, a.missing))))
